@@ -61,6 +61,15 @@ def run(scn, stats):
         if rec_["op"]["op"] == "done" and rec_["op"]["status"] in ("failed", "timeout", "abandoned") and rec_["before"] in provider.TERMINAL:
             late_failed.add((rec_["op"]["a"][0], rec_["op"]["a"][1]))
 
+        a_ = rec_["op"].get("a")
+        if rec_["op"]["op"] == "done" and a_ and a_[2] is not None:
+            # items whose success was reported while the workflow was still active
+            if rec_["op"]["status"] == "succeeded" and rec_["before"] not in provider.TERMINAL:
+                ok_items.add(tuple(a_))
+            else:
+                ok_items.discard(tuple(a_))
+
+    ok_items = set()
     drv.observers.append(late)
     labels = set()
     reran = collections.Counter()  # (task, item) -> failed attempts that were re-executed
@@ -123,6 +132,7 @@ def run(scn, stats):
             parallel_left = flow.has_due() or bool(flow.open)
             n_disp_before = collections.Counter((t, rt_, i) for t, rt_, i in drv.dispatched)
             # last reported status of every item of the failed with-items executions
+            ok_items_before = set(ok_items)
             item_last = {}
             for (t, rt_, i, s_) in drv.completed:
                 if i is not None and (t, rt_) in {tuple(x) for x in failed}:
@@ -139,8 +149,12 @@ def run(scn, stats):
             if drv.status() != "resuming":
                 raise Violation("status-not-resuming-after-rerun", dict(info, status=drv.status()))
             for t, rt in failed:
-                final_outcomes[t] = [["succeeded", 200]]
-                r.outcomes[t] = [["succeeded", 200]]
+                base = (scn["outcomes"] or {}).get(t) or [["succeeded", 200]]
+                # only some items failed on their own: the others keep the result of the first run, so the
+                # task's own row (which the clean run uses for every item) has to stay what it was
+                row = [list(base[0])] if base[0][0] == "succeeded" else [["succeeded", 200]]
+                final_outcomes[t] = row
+                r.outcomes[t] = [list(row[0])]
                 for key in [k_ for k_ in list(r.outcomes) if k_.startswith(t + "#")]:
                     r.outcomes.pop(key)
                     final_outcomes.pop(key, None)
@@ -178,9 +192,14 @@ def run(scn, stats):
                 if (t, rt_) in failed_execs and n_disp_before.get((t, rt_, i), 0) > 0 and c > n_disp_before[(t, rt_, i)]:
                     reran[(t, i)] += c - n_disp_before[(t, rt_, i)]
             # with-items: without reset_items only the items that had not succeeded run again, with it all do
+            disp_now = collections.Counter((t, rt_, i) for t, rt_, i in drv.dispatched)
+            reset = variant == "reset"
+            for key in sorted(k_ for k_ in ok_items_before if (k_[0], k_[1]) in failed_execs):
+                again = disp_now[key] - n_disp_before.get(key, 0)
+                if not reset and again:
+                    raise Violation("succeeded-item-repeated-by-rerun-without-reset", dict(info, item=list(key), times=again, history=common.history_summary(r)[-30:]))
+                labels.add("items-kept-by-rerun")
             if not late_any and item_last:
-                disp_now = collections.Counter((t, rt_, i) for t, rt_, i in drv.dispatched)
-                reset = variant == "reset"
                 for key, s_ in sorted(item_last.items()):
                     again = disp_now[key] - n_disp_before.get(key, 0)
                     if not reset and s_ == "succeeded" and again:
@@ -265,12 +284,31 @@ CFG = gen.cfg(acyclic=True, p_loop=0.0, items=0.2, retry=0.0, max_tasks=7, pub_c
 
 def strategy(tier):
     base = gen.scenario(CFG, flags={}, p_fail=0.3, max_choices=40, fixed_outcomes=True, abend=True)
+
+    def build(s, v, e, b, item_fail):
+        # some items of a with-items task fail on their own (the others succeed in time): a rerun without
+        # reset_items has to leave the succeeded ones alone
+        oc = dict(s["outcomes"])
+        k = 0
+        for name in sorted(s["ir"]["tasks"]):
+            w = s["ir"]["tasks"][name].get("with")
+            if not w:
+                continue
+            n = len(w["items"]["e"][1]) if isinstance(w["items"], dict) and w["items"]["e"][0] == "lit" else 0
+            for i in range(n):
+                f = item_fail[k % len(item_fail)]
+                k += 1
+                if f:
+                    oc["%s#%d" % (name, i)] = [[["failed", "timeout", "abandoned"][f - 1], 500]]
+        return dict(s, outcomes=oc, variant=v, early=e, bogus=b)
+
     return st.builds(
-        lambda s, v, e, b: dict(s, variant=v, early=e, bogus=b),
+        build,
         base,
         st.sampled_from(["default", "default", "explicit", "reset", "descendant"]),
         st.integers(0, 40),
         st.integers(0, 9),
+        st.lists(st.sampled_from([0, 0, 0, 0, 1, 1, 2, 3]), min_size=1, max_size=8),
     )
 
 
